@@ -466,3 +466,32 @@ Proof.
   - left. unfold g'. cbn [pcap mask set_tabs set_mask]. lia.
   - intros t0. rewrite Hown. destruct (Nat.eqb_spec t0 t) as [->|Hne]; [intros _; rewrite rsetv_same; reflexivity|cbn; tauto].
 Qed.
+
+(** the invariant depends on the assignment pointwise *)
+Lemma CoreR_ext g (a a' : RAux) : (forall t, a' t = a t) -> CoreR g a -> CoreR g a'.
+Proof.
+  intros E [K1 K2 K3 K4 K5 K6 K7 P1 P2 P2' P3 P3' P4 P5 P6 P7 P8 P9 P10].
+  constructor.
+  - intros l H. destruct (K1 l H) as (t & Ht). exists t. now rewrite E.
+  - intros t l. rewrite E. apply K2.
+  - intros t t' l. rewrite !E. apply K3.
+  - intros l. destruct (K4 l) as [H|(t & H)]; [now left|right; exists t; now rewrite E].
+  - intros t l. rewrite E. apply K5.
+  - intros t l. rewrite E. apply K6.
+  - intros t gg tb i. rewrite E. apply K7.
+  - intros t. rewrite E. apply P1.
+  - intros H t. rewrite E. now apply P2.
+  - destruct P2' as [H|(R & H)]; [now left|right; exists R; now rewrite E].
+  - intros t g0 sz j. rewrite E. apply P3.
+  - intros t g0 sz n b. rewrite E. apply P3'.
+  - intros t gen i. rewrite E. intros H. destruct (P4 t gen i H) as (A1 & A2 & A3). split; auto. split; auto. intros R HR. rewrite E. auto.
+  - intros t gen i. rewrite E. intros H. destruct (P5 t gen i H) as (A1 & A2). split; auto. intros Eg R HR. rewrite E. auto.
+  - exact P6.
+  - intros t. rewrite E. apply P7.
+  - destruct P8 as (A1 & A2 & A3). split; [|split].
+    + intros t. rewrite E. apply A1.
+    + intros t t'. rewrite !E. apply A2.
+    + intros H t. rewrite E. now apply A3.
+  - destruct P9 as [H|(R & g0 & sz & H1 & H2)]; [now left|right; exists R, g0, sz; rewrite E; auto].
+  - intros t. rewrite E. apply P10.
+Qed.
